@@ -37,12 +37,32 @@ def all_slice_specs(v):
     return out
 
 
+def _array_reads(v):
+    """atoms index(array, [r, c]) occurring in a value"""
+    out, stack = [], [v]
+    while stack:
+        x = stack.pop()
+        if isinstance(x, Poly):
+            for mono in x.t:
+                for a_, _ in mono:
+                    if a_[0] == "f":
+                        if atom_fn(a_) == "index" and len(a_) > 3 and isinstance(a_[3], tuple) and a_[3] and a_[3][0] == "array":
+                            out.append(a_)
+                        stack.extend(k[1] for k in a_[2:] if isinstance(k, tuple) and len(k) == 2 and k[0] == "P")
+        elif isinstance(x, tuple) and len(x) == 3 and x[0] == "R":
+            stack.extend([x[1], x[2]])
+        elif hasattr(x, "n") and hasattr(x, "d"):
+            stack.extend([x.n, x.d])
+    return out
+
+
 def row_operation_width(ck, F, rule, fn, floor=3):
     b = F.body(fn)
     # private helpers of the module (e.g. an extracted "subtract a multiple of the pivot row") are expanded at their call sites
     t = Tracer(F, r"ndarray::impl_methods::<impl ndarray::ArrayBase<S, D>>::(swap|slice_mut|multi_slice_mut|slice)", mode="int",
                inline=lambda p: F.bodies.get(p) if p and p.startswith("linalg::") and p != fn else None)
     env = {}
+    t.track_reads = True
     t.bind(b.params[0], var("array"), env)
     try:
         t.eval(b.value, env)
@@ -198,6 +218,37 @@ def row_operation_width(ck, F, rule, fn, floor=3):
             # (other path conditions - the search found a row, loop bounds - are not judged here)
         ck.inst(rule, "%s:pivot-exchange#%d" % (fn.rsplit("::", 1)[-1], nsw), not bad, e.site,
                 "rows %r and %r are exchanged whenever they differ%s" % (r1, r2, (" ; but " + "; ".join(bad[:2])) if bad else ""))
+    # Pivot value: an element of a row that takes part in the exchange, read into a local and used by a later row operation, is read
+    # *after* the exchange (read before it, the local holds the element of the row that was there before: for a row found further
+    # down it is the zero the search skipped, and the elimination divides by it)
+    swaps_ = [(e, idx) for kind, e, idx in ops if kind == "swap"]
+    npv = 0
+    if swaps_:
+        reads_ = [e for e in t.events if e.callee == "<read>"]
+        unp_ = lambda c: c[1] if isinstance(c, tuple) and len(c) == 2 and c[0] == "P" else c
+        swap_rows = set()
+        for e, idx in swaps_:
+            for a_ in e.args[1:3]:
+                if isinstance(a_, tuple) and a_ and a_[0] == "array":
+                    swap_rows.add(repr(unp_(a_[1][0])))
+        seen_ = set()
+        for kind, e, idx in ops:
+            if kind != "store":
+                continue
+            for a_ in _array_reads(e.args[1]):
+                row_ = repr(unp_(a_[3][1][0]))
+                if row_ not in swap_rows:
+                    continue
+                earlier = [r for r in reads_ if r.seq < e.seq and isinstance(r.args[0], Poly) and single_atom(r.args[0]) == a_]
+                stale = [r for r in earlier if any(r.seq < s_.seq < e.seq for s_, _ in swaps_)]
+                fresh = [r for r in earlier if r not in stale]
+                if not earlier or (r_ := (stale or fresh)[0]).site in seen_:
+                    continue
+                seen_.add(r_.site)
+                npv += 1
+                ck.inst(rule, "%s:pivot-read-after-exchange#%d" % (fn.rsplit("::", 1)[-1], npv), not stale, r_.site,
+                        "the element %s used by the row operation is read %s the rows are exchanged ; required after (the value before "
+                        "the exchange belongs to the other row)" % ("array[[%s, %s]]" % (row_, unp_(a_[3][1][1])), "before" if stale else "after"))
     # Row *selection* of the eliminations: `row_t -= x * row_p` must be applied to exactly the rows on one side of the pivot row p:
     # t in p+1..nrows (rows below) or t in 0..p (rows above). A range anchored at anything else (e.g. the column counter) skips
     # rows that still hold a one in the pivot column or touches rows that are already reduced.
